@@ -43,3 +43,12 @@ package util
 //@ func (*ClientState).Get
 //@   nopanic [C29]
 //@   ensures [C29] load: result == deref(s)
+
+// ---- connection wrapper: external I/O, contract assumed (body not verified) ----
+//@ func (*ConnWithContext).Write
+//@   trusted
+//@   ensures io: result1 == nil ==> 0 <= result0
+//@ func (*ConnWithContext).Read
+//@   trusted
+//@   assigns mem(p)
+//@   ensures io: result1 == nil ==> 0 <= result0 && result0 <= len(p)
